@@ -155,7 +155,7 @@ def run(tier, seed, replay=None):
             for attempt in (1, 2):
                 superseded += hs[i].get("sent", [])
                 retried += 1
-                j2 = (j[0], j[1], j[2] + "/retry%d" % attempt, j[3], max(j[4], 0.02))
+                j2 = (j[0], j[1], j[2] + "/retry%d" % attempt, j[3], j[4])          # same sizes and pacing, on its own
                 h2 = guarded(j2)
                 time.sleep(0.3)
                 if session_ok(h2):
